@@ -93,7 +93,7 @@ def family(tier: str, seed: int) -> List[str]:
     if tier == "quick":
         # (sets built from a symbolic list are slow to explore: thorough tier only)
         seen = [e for e in seen if "{*xs" not in e]
-    depth2 = combine(seen, rnd, 24 if tier == "quick" else 250)
+    depth2 = combine(seen, rnd, 24 if tier == "quick" else 120)
     out = seen + depth2
     # validity: must compile
     ok = []
